@@ -267,6 +267,10 @@ type preloadCase struct {
 	Parts  []string `json:"parts"`           // P1..Pn, M (each newline terminated)
 	Mode   []string `json:"mode"`
 	Origin string   `json:"origin"`
+	// Missing > 0: an entry naming no file stands at position Missing-1 of the
+	// preload list. ti leaves such an entry out; a ti that refuses to run
+	// (non-zero exit) is skipped, not judged.
+	Missing int `json:"missing,omitempty"`
 }
 
 func judgePreload(c *CheckCtx, rn Runner, pc *preloadCase) *Violation {
@@ -284,6 +288,11 @@ func judgePreload(c *CheckCtx, rn Runner, pc *preloadCase) *Violation {
 		}
 		files[name] = pc.Parts[i]
 		preload = append(preload, name)
+	}
+	if pc.Missing > 0 && pc.Missing <= len(preload)+1 {
+		at := pc.Missing - 1
+		preload = append(preload[:at], append([]string{"generated/no_such_file_zz.rb"}, preload[at:]...)...)
+		c.Event("preload_lists_with_a_missing_entry", 1)
 	}
 	o2, ok2 := relRun(c, rn, &Exec{Files: files, Argv: argv, Preload: preload})
 	if !ok1 || !ok2 {
@@ -456,7 +465,7 @@ func init() {
 			return judgePreload(c, s.BlackBox(), &pc)
 		},
 		Run: func(c *CheckCtx) {
-			c.rule = "programs (corpus and generated) split at top-level statement boundaries into 1-3 preload files plus a target; `.ti-loader.json` lists the preload files in order; oracle: out(target | preloads) == out(concatenation) restricted to the target's rows and rebased, and no output line names a preloaded file; modes plain and -i; in plain mode up to two call rows of the target are also hovered (--hover --row) in both arrangements and must name the same method. distinct_nontrivial = distinct (split, mode) whose target rows carry output"
+			c.rule = "programs (corpus and generated) split at top-level statement boundaries into 1-3 preload files plus a target; `.ti-loader.json` lists the preload files in order (one list in eight also names a file that does not exist, before, between or after them: a ti that still runs must behave as if the entry were not there); oracle: out(target | preloads) == out(concatenation) restricted to the target's rows and rebased, and no output line names a preloaded file; modes plain and -i; in plain mode up to two call rows of the target are also hovered (--hover --row) in both arrangements and must name the same method. distinct_nontrivial = distinct (split, mode) whose target rows carry output"
 			c.assumptions = []string{"splits in which a run crashes or hangs are skipped (C01/C02)"}
 			c.bbEvery = 5 // preloading lives in main(): one case in five runs in a real process
 			r := c.RNG.Sub(18)
@@ -531,6 +540,12 @@ func init() {
 			// preload files (their order matters)
 			for k := 0; k < c.N(120, 2500); k++ {
 				jobs = append(jobs, genPreloadTemplate(r))
+			}
+			// one list in eight also names a file that does not exist
+			for _, pc := range jobs {
+				if r.Chance(1, 8) {
+					pc.Missing = 1 + r.Intn(len(pc.Parts))
+				}
 			}
 			c.Extra("splits", len(jobs))
 			c.Eng.Map(len(jobs), func(s *Slot, i int) {
